@@ -97,8 +97,9 @@ StepFreeRestart ==
           \* acknowledging anything, stream.rs:752-757 -- such an operation cannot be replayed either)
           /\ \A o \in A : (o.tp = T /\ o \in S) => c[o.a] >= o.seq
           \* a completed publish is stored, unless a later operation with the prune flag removed it
+          \* (written with a set, not with \E: TLC enumerates every witness of an \E in an action)
           /\ \A k \in 1..Len(Ev.published) :
-                \E o \in S : o.a = Me /\ o.tp = T /\ (o.seq = Ev.published[k] \/ (o.prune /\ o.seq > Ev.published[k]))
+                {o \in S : o.a = Me /\ o.tp = T /\ (o.seq = Ev.published[k] \/ (o.prune /\ o.seq > Ev.published[k]))} # {}
           /\ \A a \in Authors : c[a] >= prevc[a]
           /\ Len(Ev.others) = 0
           \* ReplayStarted / ReplayEnded appear iff some range is non-empty (operations without
